@@ -296,6 +296,17 @@ def plain_flights(conn):
     from .tlsconn import WRec
     R = Rng(conn["sub"], "http")
     fl = []
+    if conn.get("raw"):
+        for d, hx in conn["raw"]:
+            f = {"c": [], "s": []}
+            b = bytes.fromhex(hx)
+            pos = 0
+            while pos < len(b):      # one WRec per TLS record so that the truth knows the record boundaries
+                ln = 5 + int.from_bytes(b[pos + 3:pos + 5], "big") if pos + 5 <= len(b) else len(b) - pos
+                f[d].append(WRec(d, "plain", b[pos:pos + ln]))
+                pos += ln
+            fl.append(f)
+        return fl
     for i, (d, n) in enumerate(conn.get("msgs", [["c", 80], ["s", 300]])):
         if conn.get("text", True):
             body = (b"GET /%d HTTP/1.1\r\nHost: x\r\n\r\n" % i) if d == "c" else b"HTTP/1.1 200 OK\r\nContent-Length: 5\r\n\r\nhello"
